@@ -312,7 +312,11 @@ def stressOk (impl : String) : Bool :=
 def monitor (line : String) : String :=
   match line.splitOn "\t" with
   | [script, impl] =>
-    if script.startsWith "stress" then
+    if (script.splitOn "Xg").length > 1 then
+      -- a callback that ends its goroutine with runtime.Goexit: outside the model (its callbacks return or panic);
+      -- such lines are judged by the property oracle only, never rejected here
+      "ok oracle-only"
+    else if script.startsWith "stress" then
       if stressOk impl then "ok" else "reject stress run reports a violated invariant"
     else
     match script.splitOn " | " with
